@@ -317,14 +317,17 @@ TRIPLE_CLASSES = ["random", "random", "random", "del_vs_edit", "del_vs_edit", "i
                   "minor_diff", "retype", "empty_source", "both_append_outputs", "exec_count", "fixture",
                   "nbmeta_conflict", "out_meta_conflict", "multi_line_meta", "del_vs_transient", "del_vs_transient",
                   "both_insert_lists", "nul_in_source", "same_insert_edit_below", "transient_meta_conflict",
-                  "del_vs_output_edit"]
+                  "del_vs_output_edit", "large_outputs", "long_notebook", "wide_metadata"]
 
 
 def merge_triple(gen, cls=None, minor=None, plain_eol=False):
     """(class, base, local, remote, info).  plain_eol restricts sources to \\n / \\r\\n
     line endings and no exotic separators (C07: external tools are line tools)."""
     r = gen.rng
-    cls = cls or r.choice(TRIPLE_CLASSES)
+    if cls is None:
+        cls = r.choice(TRIPLE_CLASSES)
+        if cls == "long_notebook" and r.random() < 0.6:      # ~1 s per merge without cell ids: keep it rare
+            cls = "random"
     info = {}
     if cls == "fixture":
         fx = fixtures()
@@ -491,6 +494,103 @@ def merge_triple(gen, cls=None, minor=None, plain_eol=False):
         if r.random() < 0.4:
             loc["cells"][pos]["source"] = edit_text(loc["cells"][pos]["source"], gen, CODE_LINES)
         info = {"pos": pos}
+    elif cls == "large_outputs":
+        # payloads beyond the comparison cut-offs of the output alignment (10000 chars mime text, 1000 chars stream):
+        # one side re-runs (counts, a character near the end of the payload), the other edits source / output
+        # metadata / a character near the start, or clears the outputs
+        ec = r.randrange(1, 9)
+        html = big_text(r, "html")
+        outs = [{"output_type": "execute_result", "execution_count": ec, "metadata": {}, "data": {"text/html": html, "text/plain": "<table %d>" % len(html)}},
+                {"output_type": "stream", "name": "stdout", "text": big_text(r, "log", r.choice([900, 1100, 3000]))}]
+        r.shuffle(outs)
+        c = _code_cell(gen, m, "df.describe()\n", outs)
+        c["execution_count"] = ec
+        pos = r.randrange(len(base["cells"]) + 1)
+        for nb in (base, loc, rem):
+            nb["cells"].insert(pos, copy.deepcopy(c))
+
+        def poke(cell, where):
+            o = r.choice(cell["outputs"])
+            key = "text" if o["output_type"] == "stream" else "text/html"
+            holder = o if key == "text" else o["data"]
+            t = holder[key]
+            j = r.randrange(min(40, len(t))) if where == "start" else len(t) - 1 - r.randrange(min(40, len(t)))
+            holder[key] = t[:j] + ("#" if t[j] != "#" else "%") + t[j + 1:]
+        lc, rc = loc["cells"][pos], rem["cells"][pos]
+        lc["execution_count"] = ec + 1
+        for o in lc["outputs"]:
+            if o["output_type"] == "execute_result":
+                o["execution_count"] = ec + 1
+        if r.random() < 0.6:
+            poke(lc, "end")
+        what = r.choice(["source", "out_meta", "poke_start", "poke_end", "clear", "rerun_too"])
+        if what == "source":
+            rc["source"] += "df.head()\n"
+        elif what == "out_meta":
+            [o for o in rc["outputs"] if "metadata" in o][0]["metadata"]["isolated"] = True
+        elif what.startswith("poke"):
+            poke(rc, what[5:])
+        elif what == "clear":
+            rc["outputs"], rc["execution_count"] = [], None
+        else:
+            rc["execution_count"] = ec + 2
+            for o in rc["outputs"]:
+                if o["output_type"] == "execute_result":
+                    o["execution_count"] = ec + 2
+        info = {"pos": pos, "remote": what}
+    elif cls == "long_notebook":
+        # hundreds of cells: both sides edit / delete / insert around positions far beyond small indices
+        n = r.choice([258, 270, 300])
+        if m < 5 and minor is None and r.random() < 0.75:
+            m = 5           # id-less long notebooks are aligned by source comparison (slow): a quarter of the cases
+        cells = []
+        for i in range(n):
+            cc = {"cell_type": "code", "metadata": {}, "source": "cell_%d = %d" % (i, i * 7), "execution_count": None, "outputs": []}
+            if m >= 5:
+                cc["id"] = "c%05d" % i
+            cells.append(cc)
+        base = {"nbformat": 4, "nbformat_minor": m, "metadata": {}, "cells": cells}
+        loc, rem = copy.deepcopy(base), copy.deepcopy(base)
+        rec = []
+        for side, nb in (("L", loc), ("R", rem)):
+            for _ in range(r.randrange(1, 5)):
+                k = r.choice([r.randrange(len(nb["cells"])), len(nb["cells"]) - 1 - r.randrange(0, 30)])
+                what = r.choice(["edit", "edit", "delete", "insert", "meta"])
+                rec.append((side, what, k))
+                if what == "edit":
+                    nb["cells"][k]["source"] += "\n# %s edit" % side
+                elif what == "delete":
+                    del nb["cells"][k]
+                elif what == "insert":
+                    new = {"cell_type": "markdown", "metadata": {}, "source": "%s inserted at %d" % (side, k)}
+                    if m >= 5:
+                        new["id"] = gen.new_id()
+                    nb["cells"].insert(k, new)
+                else:
+                    nb["cells"][k]["metadata"]["tags"] = [side]
+        info = {"n": n, "edits": rec}
+    elif cls == "wide_metadata":
+        # notebook metadata with 100-300 keys (saved widget state): both sides change / add / drop a few
+        n = r.choice([100, 260, 300])
+        state = {"model%04d" % i: {"model_name": "IntSliderModel", "state": {"description": "slider %d" % i, "value": i}} for i in range(n)}
+        for nb in (base, loc, rem):
+            nb["metadata"]["widgets"] = {"application/vnd.jupyter.widget-state+json": {"version_major": 2, "version_minor": 0, "state": copy.deepcopy(state)}}
+        rec = []
+        for side, nb in (("L", loc), ("R", rem)):
+            st = nb["metadata"]["widgets"]["application/vnd.jupyter.widget-state+json"]["state"]
+            for _ in range(r.randrange(1, 5)):
+                key = "model%04d" % r.choice([r.randrange(n), n - 1 - r.randrange(5), 256 + r.randrange(4) if n > 260 else r.randrange(n)])
+                what = r.choice(["value", "value", "drop", "add", "desc"])
+                rec.append((side, what, key))
+                if what == "value" and key in st:
+                    st[key]["state"]["value"] = r.choice([st[key]["state"]["value"] + 1, 1000 + r.randrange(9), float(st[key]["state"]["value"])])
+                elif what == "drop":
+                    st.pop(key, None)
+                elif what == "add":
+                    st["model%04d_%s" % (r.randrange(n), side if r.random() < 0.7 else "X")] = {"model_name": "NewModel", "state": {"value": r.randrange(300, 999)}}
+                elif key in st:
+                    st[key]["state"]["description"] += " (%s)" % side
+        info = {"n": n, "edits": rec}
     elif cls == "nul_in_source":
         # a NUL character inside a source (valid JSON, valid notebook): external text tools treat the text as binary
         lines = ["line one of %d" % r.randrange(99), "binary \x00 payload pasted here", "line three", "line four"]
